@@ -759,6 +759,8 @@ struct SmallSetEngine : EngineBase {
       }
     }
     { Op o; o.k = O_RANGE; o.rn = 0; ops.push_back(o); }
+    // ranges longer than any 8-bit count (the whole key domain, many times over)
+    for (int extra = 0; extra < 3; ++extra) { Op o; o.k = O_BULK; o.key = extra; o.i = 256 + extra; o.j = 1; o.rkind = extra % RK_N; ops.push_back(o); }
     return ops;
   }
 
@@ -898,6 +900,12 @@ struct SmallSetEngine : EngineBase {
       o.k = O_BULK;
       o.i = 2 + static_cast<int>(rng.below(static_cast<uint32_t>(SSInfo<SetA>::kN)));
       o.j = 1 + static_cast<int>(rng.below(3));
+    }
+    if (rng.chance(1, 48)) {
+      // a range much longer than the inline capacity (and than what an 8-bit count can hold): 256 .. 256+N+1 or 512 .. elements over the whole key domain
+      o.k = O_BULK;
+      o.i = (rng.chance(1, 4) ? 512 : 256) + static_cast<int>(rng.below(static_cast<uint32_t>(SSInfo<SetA>::kN + 2)));
+      o.j = 1;
     }
     return o;
   }
